@@ -18,7 +18,12 @@ ASSUME_RANGE = "points are finite and no exact intermediate leaves ordinary floa
 
 
 def sizes(tier: str, quick: int, thorough: int) -> int:
-    return quick if tier == "quick" else thorough
+    """number of generated cases; the quick tier looks three times as hard when the implementation's
+    source differs from the fingerprint the checks were last validated against"""
+    from .core import changed_sources
+    if tier == "quick":
+        return min(quick * 3, thorough) if changed_sources() else quick
+    return thorough
 
 
 def names_of(e) -> list[str]:
@@ -48,6 +53,13 @@ def expr_stream(rng: random.Random, tier: str, n_random: int, depth_q: int = 4, 
             out += gen.twin_patterns(g)
     if rules and set(kinds) >= set(gen.ALL):
         out += gen.rich_shapes(rng, max(40, n_random // 3))
+        from .core import changed_classes
+        focus = [k for k in changed_classes() if k in kinds]
+        if focus:       # the classes whose source changed: shapes rooted at them, bare and inside random parents
+            g = gen.Gen(rng, names=names, kinds=kinds)
+            for origin, e in gen.rich_shapes(rng, max(60, n_random // 2), classes=focus):
+                out.append(("changed:" + origin, e))
+                out.append(("changed+:" + origin, gen.wrap_random(g, e, 1)))
     maxd = depth_q if tier == "quick" else depth_t
     frags = [gen.RATIONAL, gen.RATIONAL + gen.ROOTS, kinds, kinds]
     for i in range(n_random):
